@@ -37,6 +37,8 @@ type NetEcho struct {
 	// heartbeat during the last Run (a timeout on a machine that was late is no verdict).
 	Timeout time.Duration
 	MaxLate time.Duration
+	// PauseAfter: extra pause after the fragment with the given index has been written (reset by Run)
+	PauseAfter map[int]time.Duration
 }
 
 var netEchoCounter int32
@@ -179,7 +181,9 @@ func (e *NetEcho) Run(frags [][]byte, _ sconn.End) ([]Obs, sconn.Result, *sconn.
 			if _, err := c.Write(f); err != nil {
 				return
 			}
-			if pause && i < len(frags)-1 {
+			if d, ok := e.PauseAfter[i]; ok {
+				time.Sleep(d)
+			} else if pause && i < len(frags)-1 {
 				time.Sleep(150 * time.Microsecond)
 			}
 		}
